@@ -24,7 +24,7 @@
    PARTIAL: mixed worlds (immediate and evaluator-driven bindings together, acting observers, replacement and destruction) are covered by the extracted checker PropCheck.check_c06_after_evalall on every evaluateAll of every generated
    history and by correspondence. *)
 From KDB Require Import Util PropDefs PropProofs.
-From KDB Require PropAbs PropAbsLazy PropCheck PropSim PropSimLazy PropGrowLazy PropGrowMore PropGrowLazyMore PropReg PropMoveLazy PropNotify.
+From KDB Require PropAbs PropAbsLazy PropCheck PropSim PropSimLazy PropGrowLazy PropGrowMore PropGrowLazyMore PropReg PropMoveLazy PropNotify PropMixedLazy PropLink.
 
 (* a notification reaching a node of an evaluator-driven binding only sets dirty flags *)
 Theorem C06_notification_only_marks :
@@ -314,6 +314,31 @@ Example C06_second_evaluate_all_example :
   (exists st, nth_error (w_evps w) 1 = Some st /\ forallb (fun rb => match PropSimLazy.lz w (snd rb) with Some _ => true | None => false end) (ep_registry st) = true) /\
   values w 2 = Some 4%Z /\ values w1 2 = Some 13%Z /\ step1 fn true 8 w1 (BevEvalAll 0) = (w1, None).
 Proof. split; [eexists; split; vm_compute; reflexivity|]. split; [vm_compute; reflexivity|]. split; vm_compute; reflexivity. Qed.
+
+(* ---- MIXED worlds: immediate and evaluator-driven bindings together, observers that do not act (coq/PropMixedLazy.v) ---- *)
+(* MS w: every cache of every evaluator-driven binding is right for the CURRENT values (a clean operator node has clean children and holds
+   what it would compute from them).  An assignment keeps this, whatever cascade of immediate re-evaluations it sets off in between:
+   every evaluator-driven leaf that reads a property whose value changes is marked before setHelper of that property returns *)
+Theorem C06_mixed_assignment_keeps_caches_right :
+  forall fn rtl fuel w p v w',
+    PropLink.pinv w -> PropSim.NOACT w -> PropMixedLazy.LSIMP w -> PropMixedLazy.MS fn w ->
+    set_helper fn rtl fuel w p v = (w', None) ->
+    PropLink.pinv w' /\ PropSim.NOACT w' /\ PropMixedLazy.LSIMP w' /\ PropMixedLazy.MS fn w' /\ PropLinkBasics.views_eq w w'.
+Proof. exact PropMixedLazy.mixed_set_helper_keeps_sound. Qed.
+Print Assumptions C06_mixed_assignment_keeps_caches_right.
+
+(* ... hence an evaluation of an evaluator-driven binding hands to setHelper exactly the value of its expression over the current
+   inputs - no cache is ever stale - and leaves every cache right again *)
+Theorem C06_mixed_evaluation_is_exact :
+  forall fn rtl fuel w b x T w',
+    PropLink.pinv w -> PropSim.NOACT w -> PropMixedLazy.LSIMP w -> PropMixedLazy.MS fn w ->
+    get_bind w b = Some x -> b_evp x <> 0 -> PropSim.abs_tree (b_root x) = Some T ->
+    binding_evaluate fn rtl (set_helper fn rtl fuel) w b = (w', None) ->
+    PropLink.pinv w' /\ PropSim.NOACT w' /\ PropMixedLazy.LSIMP w' /\ PropMixedLazy.MS fn w' /\ PropLinkBasics.views_eq w w' /\
+    exists t lg, eval fn rtl (values w) (b_root x) =
+                 (t, inl (PropAbs.den (PropSim.F1 fn) (PropSim.F2 fn) (PropSim.F3 fn) (PropMixedLazy.envof w) T), lg).
+Proof. exact PropMixedLazy.mixed_lazy_evaluate. Qed.
+Print Assumptions C06_mixed_evaluation_is_exact.
 
 (* ---- "Bindings that were reset, replaced or destroyed are never evaluated again", for EVERY history (coq/PropReg.v) ---- *)
 (* all three end in ~Binding = destroy_binding, which leaves the binding dead ... *)
